@@ -19,7 +19,7 @@ RULE = ("histories over real workspaces: a universe (homogeneous / heterogeneous
         "awkward strings: spaces, dots, unicode, empty, '.', '..', the leaf name 'job', separators) of 0..7 initial jobs, "
         "key names that are string prefixes of one another with custom specs naming one key next to {{auto}}, values that vanish under normpath ('.', '') with two-key format paths, then 1..4 create_linked_view calls (job_ids None / subsets incl. empty / path None, False, format strings with "
         "{{auto}}, invalid specs / absolute or cwd-relative prefix / two alternating prefixes) interleaved with add, remove "
-        "and re-key of jobs.  Every create_linked_view call is one case: world snapshot before, the call, snapshot after, "
+        "and re-key of jobs and with moving the view directory to another depth (stale but well-named links).  Every create_linked_view call is one case: world snapshot before, the call, snapshot after, "
         "the same call again (mutating syscalls counted), and a from-scratch build under a fresh sibling prefix; the model "
         "is run in Coq on the same input and must reproduce result class, returned mapping and all three trees; the oracle "
         "(exactness, no dangling link, no empty directory, nothing touched outside the prefix, second run no-op, equals "
@@ -194,6 +194,7 @@ def gen_history(rng):
         return rng.choice(PATH_SPECS)
     path = pick_path()
     live = len(sps)
+    moved = False
     for v in range(nviews):
         if v > 0:
             for _ in range(rng.choice([0, 1, 1, 2, 3])):
@@ -228,7 +229,11 @@ def gen_history(rng):
             ids = []
         else:
             ids = sorted(rng.sample(range(64), rng.randint(1, 4)))
-        steps.append({"op": "view", "ids": ids, "path": path, "prefix": rng.choice(["v", "v", "v", "w"])})
+        pname = rng.choice(["v", "v", "v", "w"]) if not moved else "d"
+        steps.append({"op": "view", "ids": ids, "path": path, "prefix": pname})
+        if not moved and pname == "v" and v + 1 < nviews and rng.random() < 0.15:
+            steps.append({"op": "mvview", "src": "v", "dst": "d"})
+            moved = True
     return {"universe": kind, "jobs": [typed(sp) for sp in sps], "steps": steps,
             "rel": rng.random() < 0.3}
 
@@ -270,6 +275,10 @@ def fixed_histories():
     h("fix-emptyval", [{"a": ""}, {"a": "x"}], [dict(V, path="p/{a}/q"), dict(V, path="p/{a}/q")])
     h("fix-nested-abs", [{"a": {"b": ROOTMARK + "/a/esc"}}, {"a": {"b": "x"}}], [V, V])
     h("fix-nested-sep", [{"a": {"b": "x/y"}}, {"a": {"b": "x"}}], [V, V])
+    MV = {"op": "mvview", "src": "v", "dst": "d"}
+    h("fix-moved-view", [{"a": 1}, {"a": 2}, {"a": 3}], [V, MV, dict(V, prefix="d"), dict(V, prefix="d")])
+    h("fix-moved-view-changed", [{"a": 1, "b": "x"}, {"a": 2, "b": "x"}],
+      [dict(V, path="a/{a}"), MV, {"op": "add", "sp": typed({"a": 3, "b": "y"})}, dict(V, path="a/{a}", prefix="d")], rel=True)
     VA = dict(V, path="a/{a}/{{auto}}")
     h("fix-prefixkey-dropped", [{"a": i, "ab": 10 * i, "z": i % 2, "c": "x y"} for i in range(4)], [VA, VA])
     h("fix-prefixkey-grid", [{"a": a, "alpha": al} for a in (1, 2) for al in ("x", "y")], [VA, dict(V, path="{a}/{{auto:_}}")])
@@ -296,6 +305,11 @@ def gen_inputs(tier, rng):
 
 # ------------------------------------------------------------------------------------------------ observation
 HEX32 = re.compile(r"[0-9a-f]{32}")
+
+
+def loc(name):
+    """Components (below the case directory) of a view prefix: 'v', 'w' at depth 3, 'd' one level deeper."""
+    return ["a", "b", "x", name] if name == "d" else ["a", "b", name]
 
 
 SPEC_TOKEN = re.compile(r"\{\{auto(?::([^{}]*))?\}\}|\{job\.id\}|\{job\.sp\.([^{}]+)\}|\{([^{}]+)\}")
@@ -489,7 +503,7 @@ def run_case(desc):
         root = os.path.join(os.path.realpath(d0), *(["z"] * 16))
         os.makedirs(root)
         pdir = os.path.join(root, "p")
-        os.makedirs(os.path.join(root, "a", "b"))
+        os.makedirs(os.path.join(root, "a", "b", "x"))
         project = signac.init_project(path=pdir)
         live = []   # state points of live jobs in creation order
 
@@ -543,6 +557,11 @@ def run_case(desc):
                             live[k] = job.id
                         except Exception:
                             pass
+                elif op == "mvview":
+                    # the view directory is moved to another depth: same link paths, same ids, dangling targets
+                    src, dst = os.path.join(root, *loc(step["src"])), os.path.join(root, *loc(step["dst"]))
+                    if os.path.isdir(src) and not os.path.lexists(dst):
+                        os.rename(src, dst)
                 elif op == "view":
                     c = one_view(signac, _make_path_function, root, pdir, live, step, desc, si)
                     if c is None:      # the call would have left (or tried to leave) the case directory: not executed further
@@ -557,9 +576,11 @@ def one_view(signac, _make_path_function, root, pdir, live, step, desc, si):
     rel = desc.get("rel", False)
     cwd = os.path.join(root, "a")
     name = step["prefix"]
-    prefix = os.path.join("b", name) if rel else os.path.join(root, "a", "b", name)
-    sprefix = os.path.join("b", "s") if rel else os.path.join(root, "a", "b", "s")
-    shutil.rmtree(os.path.join(root, "a", "b", "s"), ignore_errors=True)
+    lc = loc(name)
+    slc = lc[:-1] + ["s"]
+    prefix = os.path.join(*lc[1:]) if rel else os.path.join(root, *lc)
+    sprefix = os.path.join(*slc[1:]) if rel else os.path.join(root, *slc)
+    shutil.rmtree(os.path.join(root, *slc), ignore_errors=True)
     path = step["path"]
     ids = step["ids"]
     job_ids = None if ids is None else ([live[i % len(live)] for i in ids] if live else [])
@@ -604,7 +625,7 @@ def one_view(signac, _make_path_function, root, pdir, live, step, desc, si):
     allp = [j.path for j in project.find_jobs()]
     for j in jrecs:
         if j["pf"][0] == "Ok":
-            q = os.path.normpath(os.path.join(root, "a", "b", name, j["pf"][1], "job"))
+            q = os.path.normpath(os.path.join(root, *lc, j["pf"][1], "job"))
             if not q.startswith(os.path.join(root, "a") + os.sep):
                 return None
 
@@ -630,7 +651,7 @@ def one_view(signac, _make_path_function, root, pdir, live, step, desc, si):
     post2 = snapshot(root)
     res3, hint3, _ = call(sprefix)
     post3 = snapshot(root)
-    shutil.rmtree(os.path.join(root, "a", "b", "s"), ignore_errors=True)
+    shutil.rmtree(os.path.join(root, *slc), ignore_errors=True)
     if escaped[0]:
         return None
 
@@ -700,11 +721,13 @@ def one_view(signac, _make_path_function, root, pdir, live, step, desc, si):
 
     def view_of(n, name):
         try:
-            return plain_node(n[1]["a"][1]["b"][1][name], ab)
-        except KeyError:
+            for c in (slc if name == "s" else loc(name)):
+                n = n[1][c]
+            return plain_node(n, ab)
+        except (KeyError, TypeError):
             return None
 
-    obs = {"step": si, "prefix": prefix if rel else "/a/b/" + name, "path": repr(path),
+    obs = {"step": si, "prefix": prefix if rel else "/" + "/".join(lc), "path": repr(path),
            "selected": [{"id": ab(j["id"]), "pf": [j["pf"][0], ab(str(j["pf"][1]))]} for j in jrecs],
            "pfmake": pfmake,
            "result": res1[0] if res1[0] == "Ok" else res1,
@@ -728,7 +751,10 @@ def one_view(signac, _make_path_function, root, pdir, live, step, desc, si):
 def plain_without(n, name, ab):
     p = plain_node(n, ab)
     try:
-        p["a"]["b"].pop(name, None)
+        d = p
+        for c in loc(name)[:-1]:
+            d = d[c]
+        d.pop(name, None)
     except (KeyError, TypeError):
         pass
     return p
